@@ -3,6 +3,7 @@ package c15
 import (
 	"bytes"
 	"fmt"
+	"regexp"
 	"strings"
 	"testing"
 	"unicode"
@@ -240,18 +241,31 @@ func TestProp_ManyLines(t *testing.T) {
 // ---------- errors of the parsers are self-consistent and inside the input
 
 func checkError(t fataler, who string, input []byte, err error) bool {
+	return checkErrorIn(t, who, input, err, 0, len(input))
+}
+
+// checkErrorIn: the error's line, column and context are those of some offset inside [lo, hi] (the bytes the failing call
+// worked on): an error that is self-consistent but belongs to another place of the input is wrong as well
+func checkErrorIn(t fataler, who string, input []byte, err error, lo, hi int) bool {
 	pe, ok := err.(*parse.Error)
 	if !ok {
 		return false
 	}
+	found := -1
 	for o := 0; o <= len(input); o++ {
 		l, c, ctx := parse.Position(bytes.NewReader(input), o)
 		if l == pe.Line && c == pe.Column && ctx == pe.Context {
-			return true
+			found = o
+			if o >= lo && o <= hi {
+				return true
+			}
 		}
 		if l > pe.Line {
 			break
 		}
+	}
+	if found >= 0 {
+		t.Fatalf("%s on %q: error %q carries line %d column %d, the position of offset %d, but the failing call worked on the bytes [%d,%d]", who, input, pe.Message, pe.Line, pe.Column, found, lo, hi)
 	}
 	t.Fatalf("%s on %q: error %q carries line %d column %d context %q, which Position computes for no offset inside the input", who, input, pe.Message, pe.Line, pe.Column, pe.Context)
 	return true
@@ -266,7 +280,7 @@ var errFrags = map[string][]string{
 }
 
 func TestProp_ParserErrors(t *testing.T) {
-	ev.Describe("parsererrors", "valid-UTF-8 fragment strings per language (css, json, xml, html, js lexer, js parser x Options) incl. NUL, multi-byte runes and all line breaks; every *parse.Error obtained (css.Parser.Err, json.Parser.Err, xml/html Lexer.Err, js Lexer.Err, js.Parse) must equal Position(input, o) in line, column and context for some o in [0,len]; non-trivial = a *parse.Error was produced on an input with >= 2 lines or a multi-byte rune")
+	ev.Describe("parsererrors", "valid-UTF-8 fragment strings per language (css, json, xml, html, js lexer, js parser x Options) incl. NUL, multi-byte runes and all line breaks; every *parse.Error obtained (css.Parser.Err, json.Parser.Err, xml/html Lexer.Err, js Lexer.Err, js.Parse) must equal Position(input, o) in line, column and context for some o in [0,len], for the css parser and the js lexer (which go on after an error) for some o inside the bytes that the failing call (css: and, because of the one-token look-ahead, the call before it) consumed; non-trivial = a *parse.Error was produced on an input with >= 2 lines or a multi-byte rune")
 	ev.Check(t, 20000, func(t *rapid.T) {
 		lang := rapid.SampledFrom([]string{"css", "json", "xml", "html", "js", "jsparse"}).Draw(t, "lang")
 		fr := errFrags[lang]
@@ -284,10 +298,14 @@ func TestProp_ParserErrors(t *testing.T) {
 		switch lang {
 		case "css":
 			p := css.NewParser(in(), rapid.Bool().Draw(t, "inline"))
+			before, before2 := 0, 0
 			for i := 0; i < budget; i++ {
+				// the parser reads one token ahead: the unit that fails starts with a token read during the previous call
+				before2, before = before, p.Offset()
 				gt, _, _ := p.Next()
 				if gt == css.ErrorGrammar {
-					got = checkError(t, "css.Parser", input, p.Err()) || got
+					// every error is fetched, also a second one with the same message: it must be located in the unit that failed
+					got = checkErrorIn(t, "css.Parser", input, p.Err(), before2, p.Offset()) || got
 					if _, ok := p.Err().(*parse.Error); !ok {
 						break
 					}
@@ -319,10 +337,13 @@ func TestProp_ParserErrors(t *testing.T) {
 			}
 		case "js":
 			l := js.NewLexer(in())
+			jin := in()
+			l = js.NewLexer(jin)
 			for i := 0; i < budget; i++ {
+				before := jin.Offset()
 				tt, data := l.Next()
 				if tt == js.ErrorToken {
-					got = checkError(t, "js.Lexer", input, l.Err()) || got
+					got = checkErrorIn(t, "js.Lexer", input, l.Err(), before, jin.Offset()) || got
 					if data == nil {
 						break
 					}
@@ -365,8 +386,10 @@ var jsStatements = [][]string{
 	{"label", ":", "for", "(", "const", "k", "of", "a", ")", "{", "continue", "label", ";", "}"},
 }
 
+var escapeStart = regexp.MustCompile(`^u([0-9a-fA-F]{4}|\{)`)
+
 func TestProp_Insertion(t *testing.T) {
-	ev.Describe("insertion", "JS programs assembled from 1-5 statements of a 20-row token table (separators space/tab/newline/U+2028/comment between tokens) and JSON documents from the grammar generator, with one illegal character from {@, U+0001, section sign, backslash+space, #+space} (JS) / {@, #, ', x, U+0001, section sign} (JSON) inserted at a token boundary outside literals and comments; oracle: the first error's (Line, Column) == Position(text, insertion offset) computed by the harness reference; non-trivial = insertion not at offset 0 and text with >= 2 lines or a multi-byte rune before the insertion")
+	ev.Describe("insertion", "JS programs assembled from 1-5 statements of a 20-row token table (separators space/tab/newline/U+2028/comment between tokens) and JSON documents from the grammar generator, (identifiers optionally renamed to u-names such as ucfirst, ud, u8) with one illegal character from {@, U+0001, section sign, backslash+space, #+space, a bare backslash directly in front of the token} (JS) / {@, #, ', x, U+0001, section sign} (JSON) inserted at a token boundary outside literals and comments; oracle: the first error's (Line, Column) == Position(text, insertion offset) computed by the harness reference; non-trivial = insertion not at offset 0 and text with >= 2 lines or a multi-byte rune before the insertion")
 	ev.Check(t, 10000, func(t *rapid.T) {
 		var pieces []string // tokens and separators; insertion happens before pieces[at] where that is a token
 		var tokenIdx []int
@@ -374,9 +397,17 @@ func TestProp_Insertion(t *testing.T) {
 		if isJS {
 			ns := rapid.IntRange(1, 5).Draw(t, "nstmt")
 			order := rapid.Permutation(jsStatements).Draw(t, "stmts") // each row at most once: no duplicate declarations
+			// identifiers that look like the start of a unicode escape when a backslash lands in front of them
+			rename := map[string]string{}
+			if rapid.Bool().Draw(t, "unames") {
+				rename = map[string]string{"a": "ucfirst", "b": "ud", "c": "u8", "x": "uab", "y": "u", "d": "ufa1", "i": "u_", "f": "uF"}
+			}
 			for s := 0; s < ns; s++ {
 				st := order[s]
 				for i, tok := range st {
+					if r, ok := rename[tok]; ok {
+						tok = r
+					}
 					if i > 0 || s > 0 {
 						sep := rapid.SampledFrom([]string{" ", " ", "\t", "  ", " /*c*/ ", "\n", " ", "\r\n"}).Draw(t, "sep")
 						// line terminators are only safe where ASI cannot strike: keep them between statements
@@ -401,7 +432,10 @@ func TestProp_Insertion(t *testing.T) {
 		at := rapid.SampledFrom(tokenIdx).Draw(t, "at")
 		var bad string
 		if isJS {
-			bad = rapid.SampledFrom([]string{"@", "\x01", "§", "\\ ", "# "}).Draw(t, "bad")
+			bad = rapid.SampledFrom([]string{"@", "\x01", "§", "\\ ", "# ", "\\", "\\"}).Draw(t, "bad")
+			if bad == "\\" && escapeStart.MatchString(pieces[at]) {
+				bad = "\\ " // a backslash in front of uXXXX or u{ would be a (possibly legal) unicode escape
+			}
 			// a template continuation token must directly follow its substitution: no insertion in front of it
 			if strings.HasPrefix(pieces[at], "}") && strings.HasSuffix(pieces[at], "`") {
 				t.Skip("inside a template literal")
